@@ -147,7 +147,7 @@ def validate_obs(ctx: Ctx, prop: str, results: list[dict[str, Any]], formulas: I
                 r["_details"] = v.details
                 sig = signature(r, step, formula)
                 ctx.findings.append(Finding(prop, formula, sig,
-                                            {"scenario": r["scn"], "how": r["how"], "step": step},
+                                            {"scenario": r["scn"], "how": r.get("how", {}), "step": step},
                                             detail=f"{label}: {formula} false at event {step}: "
                                                    f"{_brief(r['trace'][step - 1])}"))
     other = {k: v for k, v in counts.items() if k not in mine}
